@@ -89,6 +89,7 @@ func c05StartRunner(cfg verifh.Cfg) (func(op []string) string, func()) {
 	rp := NewTaskRunner(n)
 	base := runtime.NumGoroutine()
 	wgLeaked := false
+	dead := false
 	stuckWaits := 0 // Wait calls of this section that never returned (their goroutines stay)
 	var running []*c05Gate
 	closed := func(ch chan struct{}) func() bool {
@@ -202,6 +203,9 @@ func c05StartRunner(cfg verifh.Cfg) (func(op []string) string, func()) {
 			case <-time.After(time.Millisecond):
 			}
 			if len(running) == 0 {
+				// every slot is taken although no task runs: the Schedule call above stays blocked for ever (its
+				// wg.Add(1) included) — no point in waiting for this runner again
+				wgLeaked = true
 				return "blocked-but-nothing-running"
 			}
 			old := running[0]
@@ -294,7 +298,13 @@ func c05StartRunner(cfg verifh.Cfg) (func(op []string) string, func()) {
 					}
 				}(gid)
 			}
-			if !c5.Watchdog(c5.StuckAfter, wg.Wait) {
+			// a runner whose slots leaked never lets its Schedule callers through again: give up as soon as the
+			// history stands still, and do not start further runs on this (dead) runner
+			if dead {
+				return "stuck"
+			}
+			if !c5.WatchdogProgress(h, c5.StuckIdle, c5.StuckAfter, wg.Wait) {
+				dead, wgLeaked = true, true
 				return "stuck"
 			}
 			if !waitIdle() {
